@@ -38,5 +38,37 @@ Definition run_decl (s : sexp) : sexp :=
   | _ => decode_error
   end.
 
+Definition DECLFULLTAG : N := 31340.
+Definition dec_tsref (s : sexp) : option tsref :=
+  match s with L [A 0; A t; A r] => Some (TsPath t r) | L [A 1; A t; A r] => Some (TsTypes t r) | _ => None end.
+Definition dec_extras (s : sexp) : option extras :=
+  match s with
+  | L [se; refs; jx; jt; jd; hd] =>
+      do se' <- as_option (as_pair as_atom as_atom) se;
+      do refs' <- as_list_of dec_tsref refs;
+      do jx' <- as_option (as_pair as_atom as_atom) jx;
+      do jt' <- as_option (as_pair as_atom as_atom) jt;
+      do jd' <- as_list_of (as_pair as_atom as_atom) jd;
+      do hd' <- as_option as_atom hd;
+      Some {| ex_self := se'; ex_refs := refs'; ex_jsx := jx'; ex_jsx_types := jt'; ex_jsdoc := jd'; ex_header := hd' |}
+  | _ => None
+  end.
+Definition enc_tdep (t : tdep) : sexp := of_option (fun p => L [A (fst p); enc_dres (snd p)]) t.
+
+Definition run_decl_full (s : sexp) : sexp :=
+  match s with
+  | L [A _; o; L [jsx; A zr]; L [ex; ty]; xs; ds] =>
+      match dec_dopts o, as_bool jsx, as_list_of (as_pair as_atom dec_rout) ex, as_list_of (as_pair as_atom dec_rout) ty,
+            dec_extras xs, as_list_of dec_desc ds with
+      | Some o', Some j, Some ex', Some ty', Some xs', Some ds' =>
+          let r := declared_full {| rt_exec := ex'; rt_types := ty' |} {| fo_base := o'; fo_jsx := j; fo_zero_range := zr |} xs' ds' in
+          L [L [enc_tdep (fst r); L (map enc_dacc (snd r))]]
+      | _, _, _, _, _, _ => decode_error
+      end
+  | _ => decode_error
+  end.
+
 Definition is_decl_case (s : sexp) : bool :=
-  match s with L (A t :: _) => N.eqb t DECLTAG | _ => false end.
+  match s with L (A t :: _) => N.eqb t DECLTAG || N.eqb t DECLFULLTAG | _ => false end.
+Definition run_decl_any (s : sexp) : sexp :=
+  match s with L (A t :: _) => if N.eqb t DECLFULLTAG then run_decl_full s else run_decl s | _ => decode_error end.
